@@ -198,7 +198,8 @@ class MafSorterCodec(SorterCodec):
     def encode(self, record: MafRecord) -> bytearray:
         """Encodes a MafRecord"""
         if not self._column_names:
-            self._column_names = record.keys()  # type: ignore
+            # a copy: the caller may go on editing the record it handed over
+            self._column_names = list(record.keys())
         return bytearray(source=str(record), encoding='utf-8')  # type: ignore
 
     def decode(self, data: bytes, start: int, length: int) -> MafRecord:
